@@ -1,4 +1,4 @@
 #!/bin/sh
 # development helper: run a check against the clean scratch worktree /tmp/wt-dev instead of /repo
 # (used while seeded changes are being applied to /repo by tools_seeded.py)
-cd /verif && ZVERIF_SRC=/tmp/wt-dev/src PYTHONPATH=/tmp/wt-dev/src:/verif exec .venv/bin/python -m zverif.engine "$@"
+cd /verif && ZVERIF_EVIDENCE_DIR=/tmp/zverif-dev-evidence ZVERIF_SRC=/tmp/wt-dev/src PYTHONPATH=/tmp/wt-dev/src:/verif exec .venv/bin/python -m zverif.engine "$@"
